@@ -217,6 +217,7 @@ def h_multidb(c0: int, c1: int, c2: int, c3: int, n: int, storage: str) -> None:
     reached()
 
 
+from zverif.harness.c12 import h_program as _sp_program  # noqa: E402
 from zverif.harness.c14 import h_roundtrip as _roundtrip  # noqa: E402
 
 _FIRST = ['modify0', 'add', 'add_explicit', 'detach0', 'fail_vote<', 'fail_commit>', 'reopen', 'other0', 'fail_pickle', 'add_child0']
@@ -241,6 +242,14 @@ HARNESSES = [
             oracle='reachability over the edge list', code=['ObjectWriter.persistent_id/serialize', 'Connection._store_objects'],
             quick=dict(timeout=150, shards=shards(explicit_add=[False], storage=['file'], kinds=[0])),
             thorough=dict(timeout=900, shards=shards(explicit_add=[False, True], storage=['file', 'mapping'], kinds=[0, 13, 21]))),
+    Harness('failed_commit_with_savepoints', _sp_program,
+            decides='after a commit that fails with a conflict while the data of savepoints is copied to the storage, every modified object '
+                    'shows its last committed state again - also after close and reopen - and the retry commits normally (C12 program harness)',
+            symbolic='step codes of programs over modify / add / savepoint / rollback / commit / abort / a conflicting commit by another connection',
+            bounds='program length 4, first step fixed per shard', oracle='connection state model (zverif/progs.py)',
+            code=['Connection._commit_savepoint', 'tpc_abort (_modified)', 'TmpStore'],
+            quick=dict(timeout=200, shards=shards(n=[4], storage=['file'], first=['modify0', 'modify1'])),
+            thorough=dict(timeout=900, shards=shards(n=[4], storage=['file', 'mapping'], first=['modify0', 'modify1', 'savepoint', 'other0']))),
     Harness('multidb', h_multidb,
             decides='in a multi-database (primary connection + a connection to a second database in its group): changes in either '
                     'database follow the outcome of the transaction, closing the group is refused while any member is joined to a '
